@@ -2,4 +2,4 @@
    of its correspondence run. *)
 From Coq Require Import List ZArith.
 From BLB Require Import Meta.Curator Meta.CuratorWire.
-Definition run_case (ops : list (list Z)) : list (list Z) := CuratorWire.run_case ops.
+Definition run_case (ops : list (list Z)) : list (list Z) := curator_run_case ops.
